@@ -106,6 +106,14 @@ theorem init_clipped_counterexample :
   revert this
   decide
 
+/-- a column-major array with a clipped shape, as coded before fixes/C20-clipped-colmajor-reverse.diff, addresses a (2,3)
+    array with strides (1,1) instead of (1,2): the distinct in-shape indices (0,1) and (1,0) are the same buffer cell
+    (known finding C20.clipped-colmajor-strides; replayed on the real headers) -/
+theorem clipped_colmajor_counterexample :
+    colStridesClippedAsCoded [2,3] = [1,1] ∧ colStrides [2,3] = [1,2] ∧ InShape [0,1] [2,3] ∧ InShape [1,0] [2,3] ∧
+    computeOffset [0,1] (colStridesClippedAsCoded [2,3]) = computeOffset [1,0] (colStridesClippedAsCoded [2,3]) ∧
+    computeOffset [0,1] (colStrides [2,3]) ≠ computeOffset [1,0] (colStrides [2,3]) := by decide
+
 /-! ## strides() as reported -/
 
 /-- the strides an array reports agree with its addressing strides for row-major arrays … -/
